@@ -373,18 +373,21 @@ package client
 //@ macro lineIn(h_, k_, v_) = rhLine[h_][hnorm(k_)][v_]
 //@ macro noLineDropped() = forallI(a_, forallS(k_, forallS(v_, old(rhLine[a_][k_][v_]) ==> rhLine[a_][k_][v_])))
 //@ macro onlyLineAdded(h_, k_, v_) = forallI(a_, forallS(n_, forallS(w_, rhLine[a_][n_][w_] && !old(rhLine[a_][n_][w_]) ==> a_ == h_ && n_ == hnorm(k_) && w_ == v_)))
+// A header named User-Agent is not a line: AddBytesKV writes the user-agent field rhUA with it (mw_C18.spec).
 //@ func parserRequestHeader$1
-//@   modifies rhLine
+//@   modifies rhLine, rhUA
 //@   atcall @fasthttp.(*RequestHeader).AddBytesKV: client-header-line-sent: h == req.RawRequest.Header && str(arg1) == str(key) && str(arg2) == str(value)
-//@   ensures client-header-line-added: lineIn(req.RawRequest.Header, old(str(key)), old(str(value)))
+//@   ensures client-header-line-added: !isUA(old(str(key))) ==> lineIn(req.RawRequest.Header, old(str(key)), old(str(value)))
 //@   ensures no-line-dropped: noLineDropped()
 //@   ensures nothing-else-added: onlyLineAdded(req.RawRequest.Header, old(str(key)), old(str(value)))
+//@   ensures client-user-agent-header-goes-to-the-field: rhUA == ite(isUA(old(str(key))), old(rhUA)[req.RawRequest.Header := old(str(value))], old(rhUA))
 //@ func parserRequestHeader$2
-//@   modifies rhLine
+//@   modifies rhLine, rhUA
 //@   atcall @fasthttp.(*RequestHeader).AddBytesKV: request-header-line-sent-in-addition: h == req.RawRequest.Header && str(arg1) == str(key) && str(arg2) == str(value)
-//@   ensures request-header-line-added-in-addition: lineIn(req.RawRequest.Header, old(str(key)), old(str(value)))
+//@   ensures request-header-line-added-in-addition: !isUA(old(str(key))) ==> lineIn(req.RawRequest.Header, old(str(key)), old(str(value)))
 //@   ensures no-line-dropped: noLineDropped()
 //@   ensures nothing-else-added: onlyLineAdded(req.RawRequest.Header, old(str(key)), old(str(value)))
+//@   ensures request-user-agent-header-goes-to-the-field: rhUA == ite(isUA(old(str(key))), old(rhUA)[req.RawRequest.Header := old(str(value))], old(rhUA))
 // c.cookies / req.cookies  ->  the cookie is set (replacing an earlier value of that name only).
 //@ func parserRequestHeader$3
 //@   ensures client-cookie-sent: jarHas[req.RawRequest.Header][key] && jarVal[req.RawRequest.Header][key] == val
@@ -449,13 +452,18 @@ package client
 //@   ensures every-entry-handed-over-exactly-once: visitedOnce(p)
 //@   ensures nothing-else-handed-over: nothingElseVisited(p)
 
-// parserRequestHeader: user agent  request > client > default;  referer  request > client;
+// parserRequestHeader: user agent  request > client > header named User-Agent > default;  referer  request > client;
 // cookies  jar < client < request (later writes replace earlier ones of the same name); headers of both levels.
 //@ func parserRequestHeader
 //@   requires jar-usable: c.cookieJar != nil ==> !held(c.cookieJar.mu)
 //@   atcall @fasthttp.(*RequestHeader).VisitAll: client-headers-then-request-headers: (!called("@fasthttp.(*RequestHeader).VisitAll") && arg0 == c.header.RequestHeader) || (called("@fasthttp.(*RequestHeader).VisitAll") && arg0 == req.header.RequestHeader)
-//@   atcall @fasthttp.(*RequestHeader).SetUserAgent: default-then-client-then-request: h == req.RawRequest.Header && ((!called("@fasthttp.(*RequestHeader).SetUserAgent") && userAgent == defaultUserAgent) || (rhUA[h] == defaultUserAgent && userAgent == c.userAgent && userAgent != "") || (userAgent == req.userAgent && userAgent != ""))
-//@   atcall @fasthttp.(*RequestHeader).SetReferer: user-agent-settled: rhUA[req.RawRequest.Header] == ite(req.userAgent != "", req.userAgent, ite(c.userAgent != "", c.userAgent, defaultUserAgent))
+// "Every header configured on a client or request arrives with that value" includes a header named User-Agent (it is
+// merged into the user-agent field by the two VisitAll above): the DEFAULT user agent may only fill an empty field
+// (first disjunct). Before fix_5.diff the default was written unconditionally: Client.SetHeader("User-Agent", "x") was
+// sent as "fiber" (replay: c18 HeaderUserAgentOverwrittenByDefault).
+//@   atcall @fasthttp.(*RequestHeader).SetUserAgent: default-only-into-an-empty-field-then-client-then-request: h == req.RawRequest.Header && ((!called("@fasthttp.(*RequestHeader).SetUserAgent") && userAgent == defaultUserAgent && rhUA[h] == "") || ((called("@fasthttp.(*RequestHeader).SetUserAgent") || len(rhUA[h]) > 0) && userAgent == c.userAgent && userAgent != "") || (userAgent == req.userAgent && userAgent != ""))
+//@   atcall @fasthttp.(*RequestHeader).SetReferer: user-agent-settled: (req.userAgent != "" ==> rhUA[req.RawRequest.Header] == req.userAgent) && (req.userAgent == "" && c.userAgent != "" ==> rhUA[req.RawRequest.Header] == c.userAgent)
+//@   atcall @fasthttp.(*RequestHeader).SetReferer: header-configured-user-agent-over-default: !called("@fasthttp.(*RequestHeader).SetReferer") && req.userAgent == "" && c.userAgent == "" ==> rhUA[req.RawRequest.Header] == ite(len(last(@fasthttp.(*RequestHeader).UserAgent)) == 0, defaultUserAgent, str(last(@fasthttp.(*RequestHeader).UserAgent)))
 //@   atcall @fasthttp.(*RequestHeader).SetReferer: client-then-request: h == req.RawRequest.Header && ((!called("@fasthttp.(*RequestHeader).SetReferer") && referer == c.referer) || (called("@fasthttp.(*RequestHeader).SetReferer") && referer == req.referer && referer != ""))
 //@   atcall (*CookieJar).dumpCookiesToReq: jar-cookies-first: !called("(Cookie).VisitAll") && cj == c.cookieJar
 //@   atcall (Cookie).VisitAll: request-referer-wins: !called("(Cookie).VisitAll") && req.referer != "" ==> rhReferer[req.RawRequest.Header] == req.referer
@@ -464,10 +472,13 @@ package client
 // The same precedence over the configuration STATE that the setters of zz_contracts_setters_verif.go write
 // (r.userAgent, c.userAgent, r.referer, c.referer, r.method, r.bodyType, r.boundary): what the raw request
 // holds when the hook returns.
-//@   ensures user-agent-request-over-client-over-default: rhUA[req.RawRequest.Header] == ite(req.userAgent != "", req.userAgent, ite(c.userAgent != "", c.userAgent, defaultUserAgent))
+//@   ensures user-agent-request-over-client-over-header-over-default: (req.userAgent != "" ==> rhUA[req.RawRequest.Header] == req.userAgent) && (req.userAgent == "" && c.userAgent != "" ==> rhUA[req.RawRequest.Header] == c.userAgent)
+//@   ensures header-configured-user-agent-over-default: req.userAgent == "" && c.userAgent == "" ==> rhUA[req.RawRequest.Header] == ite(len(last(@fasthttp.(*RequestHeader).UserAgent)) == 0, defaultUserAgent, str(last(@fasthttp.(*RequestHeader).UserAgent)))
 //@   ensures referer-request-over-client: rhReferer[req.RawRequest.Header] == ite(req.referer != "", req.referer, c.referer)
 //@   ensures method-is-the-requests: rhMethod[req.RawRequest.Header] == req.method
-//@   ensures content-type-by-body-kind: (req.bodyType == jsonBody ==> rhCType[req.RawRequest.Header] == applicationJSON) && (req.bodyType == xmlBody ==> rhCType[req.RawRequest.Header] == applicationXML) && (req.bodyType == cborBody ==> rhCType[req.RawRequest.Header] == applicationCBOR) && (req.bodyType == formBody ==> rhCType[req.RawRequest.Header] == applicationForm) && (req.bodyType == filesBody ==> rhCType[req.RawRequest.Header] == multipartFormData) && (req.bodyType == noBody || req.bodyType == rawBody ==> rhCType[req.RawRequest.Header] == old(rhCType[req.RawRequest.Header]))
+//@   ensures content-type-by-body-kind: (req.bodyType == jsonBody ==> rhCType[req.RawRequest.Header] == applicationJSON) && (req.bodyType == xmlBody ==> rhCType[req.RawRequest.Header] == applicationXML) && (req.bodyType == cborBody ==> rhCType[req.RawRequest.Header] == applicationCBOR) && (req.bodyType == formBody ==> rhCType[req.RawRequest.Header] == applicationForm) && (req.bodyType == filesBody ==> rhCType[req.RawRequest.Header] == multipartFormData + "; boundary=" + req.boundary) && (req.bodyType == noBody || req.bodyType == rawBody ==> rhCType[req.RawRequest.Header] == old(rhCType[req.RawRequest.Header]))
+// (files: fasthttp keeps the boundary inside the content type - SetMultipartFormBoundary rewrites the content type that
+// SetContentType(multipartFormData) had just set; mw_C18.spec, corrected after the conformance test)
 //@   ensures multipart-boundary-is-the-requests: req.bodyType == filesBody ==> rhBoundary[req.RawRequest.Header] == req.boundary && (old(req.boundary) != boundary ==> req.boundary == old(req.boundary))
 //@   ensures configuration-not-changed: req.userAgent == old(req.userAgent) && req.referer == old(req.referer) && req.method == old(req.method) && req.bodyType == old(req.bodyType) && req.RawRequest == old(req.RawRequest) && c.userAgent == old(c.userAgent) && c.referer == old(c.referer) && (req.bodyType != filesBody ==> req.boundary == old(req.boundary))
 
